@@ -205,6 +205,22 @@ func (x *Exec) Stop() {
 	x.Lis.Close()
 }
 
+// Shutdown closes the server gracefully (this also ends the goroutine Serve
+// started) and the listener.
+func (x *Exec) Shutdown() {
+	done := make(chan struct{})
+	go func() {
+		defer close(done)
+		defer func() { recover() }() //nolint
+		x.Srv.Close()                //nolint
+	}()
+	select {
+	case <-done:
+	case <-time.After(WaitTimeout):
+	}
+	x.Lis.Close()
+}
+
 // ---------- callbacks ----------
 
 func (x *Exec) connOf(ctx context.Context) int {
